@@ -96,9 +96,12 @@ enum Context {
     Half,
     Lui,
     Csr,
+    /// `jalr t0, <imm>` (link in ra) and `sw t0, <imm>(t1)`
+    Jalr,
+    StoreOffset,
 }
 
-const CONTEXTS: [Context; 8] = [
+const CONTEXTS: [Context; 10] = [
     Context::Li,
     Context::Addi,
     Context::LoadOffset,
@@ -107,6 +110,8 @@ const CONTEXTS: [Context; 8] = [
     Context::Half,
     Context::Lui,
     Context::Csr,
+    Context::Jalr,
+    Context::StoreOffset,
 ];
 
 impl Context {
@@ -120,6 +125,8 @@ impl Context {
             Context::Half => ".half",
             Context::Lui => "lui",
             Context::Csr => "csr-operand",
+            Context::Jalr => "jalr-offset",
+            Context::StoreOffset => "store-offset",
         }
     }
     /// (text of the line, column where the literal starts)
@@ -133,9 +140,11 @@ impl Context {
             Context::Half => "    .half ",
             Context::Lui => "    lui t0, ",
             Context::Csr => "    csrrw t0, ",
+            Context::Jalr => "    jalr t0, ",
+            Context::StoreOffset => "    sw t0, ",
         };
         let suffix = match self {
-            Context::LoadOffset => "(t1)",
+            Context::LoadOffset | Context::StoreOffset => "(t1)",
             Context::Csr => ", t1",
             _ => "",
         };
@@ -178,6 +187,12 @@ fn observe(ctxk: Context, lit: &str) -> Seen {
                 return Seen::Value(i64::from(a.imm.get().value()));
             }
             (Context::LoadOffset, ParserNode::Load(l)) => return Seen::Value(i64::from(l.imm.get().value())),
+            (Context::StoreOffset, ParserNode::Store(l)) => return Seen::Value(i64::from(l.imm.get().value())),
+            (Context::Jalr, ParserNode::JumpLinkR(j)) => {
+                // the literal must have become the offset of a jump through t0; anything else
+                // means that it was dropped
+                return if j.rs1.get().to_num() == 5 { Seen::Value(i64::from(j.imm.get().value())) } else { Seen::Nothing };
+            }
             (Context::Csr, ParserNode::Csr(c)) => return Seen::Value(i64::from(c.csr.get().value() as i32)),
             (Context::Word | Context::Byte | Context::Half, ParserNode::Directive(d)) => {
                 if let DirectiveType::Data(_, vals) = &d.dir {
@@ -336,8 +351,8 @@ fn malformed() -> Vec<Lit> {
 pub fn run(ctx: &Ctx) -> i32 {
     let mut rep = Report::new(
         ctx,
-        "each literal spelling (value x notation x sign x letter case x zero padding) is placed in 8 operand contexts \
-         (li, addi, lw offset, .word/.byte/.half, lui, CSR operand) and parsed by the real front end; boundaries \
+        "each literal spelling (value x notation x sign x letter case x zero padding) is placed in 10 operand contexts \
+         (li, addi, lw / sw offset, jalr offset, .word/.byte/.half, lui, CSR operand) and parsed by the real front end; boundaries \
          0, 2^k-1, 2^k, 2^k+1 for k<=33 and huge magnitudes exhaustively in dec/hex/bin with both signs, random 32-bit values, \
          character literals, malformed spellings. distinct_nontrivial = distinct (spelling, context) pairs whose reading/rejection was confirmed correct",
     );
